@@ -53,7 +53,27 @@ template <class S, class D> void conv_event(const char* sname, const char* dname
     J("Conv").str("s", sname).str("d", dname).arr("sv", sem(s)).arr("dv", sem(d)).num("smax", smax).num("dmax", dmax).emit();
 }
 
+// rgba sources of one depth into destinations of another: equals converting the alpha-premultiplied rgb (same depth as the source)
+template <class S, class SRgb, class D> void rgba_cross(const char* sname, const char* dname, vt::Rng& rng, long long smax) {
+    using ch = typename gil::channel_type<S>::type;
+    std::vector<long long> alphas = {0, 1, 2, 127, 128, 254, 255, 256, 257, smax / 2, smax - 1, smax};
+    for (long long a : alphas) for (int t = 0; t < 6; ++t) {
+        if (a > smax) continue;
+        long long r = t == 0 ? smax : t == 1 ? 0 : (long long)(rng.next() % (unsigned long long)(smax + 1)), g = t == 0 ? smax : (long long)(rng.next() % (unsigned long long)(smax + 1)), b = t == 1 ? 0 : (long long)(rng.next() % (unsigned long long)(smax + 1));
+        S s; gil::get_color(s, gil::red_t()) = (ch)r; gil::get_color(s, gil::green_t()) = (ch)g; gil::get_color(s, gil::blue_t()) = (ch)b; gil::get_color(s, gil::alpha_t()) = (ch)a;
+        SRgb pm((ch)gil::channel_multiply((ch)r, (ch)a), (ch)gil::channel_multiply((ch)g, (ch)a), (ch)gil::channel_multiply((ch)b, (ch)a));
+        D direct, via; gil::color_convert(s, direct); gil::color_convert(pm, via);
+        J("RgbaX").str("s", sname).str("d", dname).arr("src", std::vector<long long>{r, g, b, a}).arr("direct", sem(direct)).arr("via", sem(via)).emit();
+    }
+}
 static void misc(vt::Rng& rng) {
+    rgba_cross<gil::rgba16_pixel_t, gil::rgb16_pixel_t, gil::rgb8_pixel_t>("rgba16", "rgb8", rng, 65535);
+    rgba_cross<gil::rgba16_pixel_t, gil::rgb16_pixel_t, gil::gray8_pixel_t>("rgba16", "gray8", rng, 65535);
+    rgba_cross<gil::abgr16_pixel_t, gil::rgb16_pixel_t, gil::cmyk8_pixel_t>("abgr16", "cmyk8", rng, 65535);
+    rgba_cross<gil::rgba8_pixel_t, gil::rgb8_pixel_t, gil::rgb16_pixel_t>("rgba8", "rgb16", rng, 255);
+    rgba_cross<gil::bgra8_pixel_t, gil::rgb8_pixel_t, gil::gray16_pixel_t>("bgra8", "gray16", rng, 255);
+    rgba_cross<gil::rgba8_pixel_t, gil::rgb8_pixel_t, gil::rgb32f_pixel_t>("rgba8", "rgb32f", rng, 255);
+    rgba_cross<gil::argb8_pixel_t, gil::rgb8_pixel_t, gil::bgr8_pixel_t>("argb8", "bgr8", rng, 255);
     // cmyk8 axes -> rgb8 -> and neutrals
     for (int v = 0; v < 256; ++v) {
         conv_event<gil::cmyk8_pixel_t, gil::rgb8_pixel_t>("cmyk8", "rgb8", gil::cmyk8_pixel_t(v, 0, 0, 0), 255, 255);
